@@ -3,7 +3,7 @@ import Pcore.Model.Ser
   C10 — specification-level definitions: what the property theorems talk about (stream laws, the meaning of a
   back-reference, the reference-free stream, the sharing hypothesis as a decidable check).  They are in a Model file
   (core-only) because the driver evaluates `sharedB` on every op value: the hypothesis `Shared` of
-  `C10_refs_wellformed` / `C10_roundtrip` is thereby checked at run time for everything the harness generates.
+  `C10_refs_wellformed` / `C10_roundtrip_partial` is thereby checked at run time for everything the harness generates.
 -/
 namespace Pcore.Ser
 
